@@ -120,6 +120,16 @@ def apply_op(state, op, out):
     mbi = state.mbi
     meas = build(state, op)
     ms = [m.tuple for m in meas]
+    if op.get('reuse_list') and getattr(state, 'caller_list', None) is not None:
+        # the caller keeps ONE list object and edits it in place between calls (replace entries, pop, append)
+        lst = state.caller_list
+        for i, m in enumerate(ms):
+            if i < len(lst): lst[i] = m
+            else: lst.append(m)
+        del lst[len(ms):]
+        ms = lst
+        state.flags.add('same_list_object_edited')
+    state.caller_list = ms
     fz = freeze_meas(ms)
     calls = []
     cb = (lambda mu: calls.append(1)) if op.get('callback') else None
@@ -250,8 +260,8 @@ def machine(tier, record, timeup):
             self.state = State(init)
 
         @rule(meas=meas_idx, total=st.sampled_from([None, 1.0, 10, 500.0, 37.5]), solver=st.sampled_from(['MD', 'MD', 'RDA', 'IG']),
-              iters=st.sampled_from([1, 2, 5, 30]), callback=st.booleans(), spelling=st.sampled_from(['tuple', 'list']))
-        def estimate(self, meas, total, solver, iters, callback, spelling):
+              iters=st.sampled_from([1, 2, 5, 30]), callback=st.booleans(), spelling=st.sampled_from(['tuple', 'list']), reuse=st.booleans())
+        def estimate(self, meas, total, solver, iters, callback, spelling, reuse):
             if self.state is None or not self.out.ok or timeup():
                 return
             a = self.state.attrs
@@ -260,7 +270,7 @@ def machine(tier, record, timeup):
                 proj = [a[i] for i in m['ix'] if i < len(a)]
                 if not proj: continue
                 ms.append({'proj': proj, 'q': m['q'], 'noise': m['noise'], 'yseed': m['yseed'], 'noise_mult': m['noise_mult']})
-            op = {'op': 'estimate', 'meas': ms, 'total': total, 'solver': solver, 'iters': iters, 'callback': callback, 'spelling': spelling}
+            op = {'op': 'estimate', 'meas': ms, 'total': total, 'solver': solver, 'iters': iters, 'callback': callback, 'spelling': spelling, 'reuse_list': reuse}
             self.history.append(op)
             try:
                 from .common import quiet
